@@ -313,6 +313,7 @@ struct P {
     virtual void LocalFileOrUrl(const XMLCh*) {}
     virtual void parseFiltered(const InputSource& src, int) { parse(src); }
     virtual void parseCtx(const std::string&, int, int) {}       // DOMLSParser::parseWithContext
+    virtual void parseAbort(const InputSource& src) { parse(src); } // DOMLSParser: abort() called from the installed filter
     virtual bool adopt() { return false; }
     virtual bool adoptedFreed(size_t) { return false; }
     virtual std::string result() { return rec.canon(); }
@@ -466,6 +467,7 @@ struct PSax2 : P {
 // DOMLSParserFilter with a few fixed behaviours
 struct LsFilter : public DOMLSParserFilter {
     int mode;   // 0 accept everything, 1 reject elements named b, 2 skip elements named c, 3 interrupt at element b
+    DOMLSParser* parser = 0; bool armed = false;     // armed: call parser->abort() at the next startElement
     explicit LsFilter(int m) : mode(m) {}
     static bool named(const DOMNode* n, char c) { const XMLCh* s = n->getNodeName(); return s && s[0] == (XMLCh)c && s[1] == 0; }
     FilterAction acceptNode(DOMNode* n) override {
@@ -473,6 +475,7 @@ struct LsFilter : public DOMLSParserFilter {
         return FILTER_ACCEPT;
     }
     FilterAction startElement(DOMElement* e) override {
+        if (armed && parser) { armed = false; parser->abort(); }
         if (mode == 1 && named(e, 'b')) return FILTER_REJECT;
         if (mode == 3 && named(e, 'b')) return FILTER_INTERRUPT;
         return FILTER_ACCEPT;
@@ -482,6 +485,7 @@ struct LsFilter : public DOMLSParserFilter {
 struct PLs : P {
     DOMLSParser* p;
     DOMDocument* last = 0;
+    LsFilter* userFilter = 0;      // installed by the configuration operation s:filter:<mode+1> (0 removes it)
     PLs() {
         static const XMLCh ls[] = {chLatin_L, chLatin_S, chNull};
         DOMImplementationLS* impl = (DOMImplementationLS*)DOMImplementationRegistry::getDOMImplementation(ls);
@@ -491,11 +495,22 @@ struct PLs : P {
         c->setParameter(XMLUni::fgDOMResourceResolver, (const void*)(DOMLSResourceResolver*)&h);
         c->setParameter(XMLUni::fgXercesDOMHasPSVIInfo, false);
     }
-    ~PLs() { if (ctxDoc) ctxDoc->release(); p->release(); delete pool; }
+    ~PLs() { if (ctxDoc) ctxDoc->release(); p->release(); delete pool; delete userFilter; }
+    void parseAbort(const InputSource& s) override {
+        if (userFilter) { userFilter->parser = p; userFilter->armed = true; }
+        try { parse(s); } catch (...) { if (userFilter) userFilter->armed = false; throw; }
+        if (userFilter) userFilter->armed = false;
+    }
     void sp(const XMLCh* n, bool b) { DOMConfiguration* c = p->getDomConfig(); if (c->canSetParameter(n, b)) c->setParameter(n, b); }
     void set(const std::string& f, int v) override {
         bool b = v != 0;
         if (f == "resolver") p->getDomConfig()->setParameter(XMLUni::fgDOMResourceResolver, (const void*)(b ? (DOMLSResourceResolver*)&h : 0));
+        else if (f == "filter") {
+            LsFilter* old = userFilter;
+            userFilter = v > 0 ? new LsFilter(v - 1) : 0;
+            p->setFilter(userFilter);
+            delete old;
+        }
         else if (f == "ns") sp(XMLUni::fgDOMNamespaces, b);
         else if (f == "schema") sp(XMLUni::fgXercesSchema, b);
         else if (f == "val") { sp(XMLUni::fgDOMValidateIfSchema, v == 2); sp(XMLUni::fgDOMValidate, v == 1); }
@@ -537,8 +552,8 @@ struct PLs : P {
     void parseFiltered(const InputSource& s, int mode) override {
         LsFilter f(mode);
         p->setFilter(&f);
-        try { parse(s); } catch (...) { p->setFilter(0); throw; }
-        p->setFilter(0);
+        try { parse(s); } catch (...) { p->setFilter(userFilter); throw; }
+        p->setFilter(userFilter);
     }
     // a context document owned by the harness: <ctx><k1>t</k1><k2/></ctx>
     DOMDocument* ctxDoc = 0;
@@ -581,6 +596,8 @@ struct PLs : P {
         b("entrefs", XMLUni::fgDOMEntities, false); b("ignws", XMLUni::fgDOMElementContentWhitespace, true);
         b("comments", XMLUni::fgDOMComments, false); b("cdata-sections", XMLUni::fgDOMCDATASections, false);
         b("datatype-normalization", XMLUni::fgDOMDatatypeNormalization, false);
+        // getFilter(): the filter the application installed (or none), never anything else
+        o += std::string("filter=") + (p->getFilter() == (DOMLSParserFilter*)userFilter ? (userFilter ? "1" : "0") : "2") + ",";
         return o;
     }
 };
@@ -665,10 +682,18 @@ static void applyOp(P* p, const std::string& op, HistState& hs, bool freshSide) 
         MemBufInputSource src((const XMLByte*)d->data(), d->size(), base, false);
         guarded([&] { p->parseFiltered(src, atoi(a[2].c_str())); });
     }
-    else if (k == "pc" && a.size() >= 4) {       // DOMLSParser::parseWithContext(fragment, context node kind, action)
+    else if ((k == "pc" || k == "pcx") && a.size() >= 4) {   // DOMLSParser::parseWithContext(fragment, context node kind, action)
+        const std::string* d = docOf(a[1]); if (!d) return;  // pcx: an exception leaves the error handler / resolver at callback k
+        p->rec.clear();
+        if (k == "pcx" && a.size() >= 5) p->rec.throwAt = atol(a[4].c_str());
+        guarded([&] { p->parseCtx(*d, atoi(a[2].c_str()), atoi(a[3].c_str())); });
+        p->rec.throwAt = -1;
+    }
+    else if (k == "pab" && a.size() >= 2) {      // DOMLSParser: the installed filter calls abort() at the first element
         const std::string* d = docOf(a[1]); if (!d) return;
         p->rec.clear();
-        guarded([&] { p->parseCtx(*d, atoi(a[2].c_str()), atoi(a[3].c_str())); });
+        MemBufInputSource src((const XMLByte*)d->data(), d->size(), base, false);
+        guarded([&] { p->parseAbort(src); });
     }
     else if (k == "rd") guarded([&] { p->resetDocPool(); });
     else if (k == "rg") guarded([&] { p->resetGrammarPool(); });
